@@ -11,16 +11,23 @@ def seeded_table():
         m = json.load(open(d + "meta.json"))
         c = m.get("confirmed", {})
         name = os.path.basename(d.rstrip("/"))
-        first_missed = "note" in c and ("MISSED" in c["note"].upper() or "missed" in c["note"])
+        first_missed = "note" in c and ("MISSED" in c["note"].upper() or "missed" in c["note"] or "exit 2" in c["note"])
+        outside = "note" in c and c["note"].startswith("NOT CAUGHT")
         n += 1
-        missed += first_missed
+        missed += first_missed and not outside
+        out_n = globals().setdefault("_outside", [0])
+        out_n[0] += outside
         files = ", ".join(os.path.basename(f) for f in m.get("files", [])[:2])
         summ = re.sub(r"\s+", " ", m.get("summary", "")).replace("|", "\\|")
         if len(summ) > 230:
             summ = summ[:227] + "..."
-        rows.append(f"| {m.get('property')} `{name}` | {summ} | {files} | {'**missed** (check strengthened, see its meta.json)' if first_missed else 'caught'} | caught |")
+        if outside:
+            rows.append(f"| {m.get('property')} `{name}` | {summ} | {files} | not caught | **not caught - outside the property as stated** (see its meta.json) |")
+        else:
+            rows.append(f"| {m.get('property')} `{name}` | {summ} | {files} | {'**missed** (check strengthened, see its meta.json)' if first_missed else 'caught'} | caught |")
     rows.append("")
-    rows.append(f"{n} changes, {missed} missed by the check as it stood when the change was evaluated, all {n} caught by the committed checks.")
+    o = globals().get("_outside", [0])[0]
+    rows.append(f"{n} changes, {missed} missed by the check as it stood when the change was evaluated; {n - o} caught by the committed checks, {o} not caught because it does not break the property as stated.")
     return "\n".join(rows)
 
 def findings_table():
